@@ -33,7 +33,7 @@ Outcome run_threads(const json& c, const std::string&) {
     eng.clear_probe_defs();
     eng.unregister_classes();
     eng.reset_tables();
-    Eng::install_handler();
+    Eng::install_handler(c.value("legacy_handler", false));
     Probes<P>::enabled = false;
     std::vector<int> order;
     for (int i = 0; i < 16; ++i) {
